@@ -24,7 +24,7 @@ def showCall : HCall → String
   | .openat d n fl m => s!"openat({fdS d},{hx n},{fl},{m})"
   | .reopen f fl _ => s!"reopen({fdS f},{fl})"
   | .openByHandle h fl _ => s!"open_by_handle(g{h},{fl})"
-  | .nameToHandle f fl => s!"name_to_handle({fdS f},,{fl})"
+  | .nameToHandle f fl _ => s!"name_to_handle({fdS f},,{fl})"
   | .statx f n fl m => s!"statx({fdS f},{hx n},{fl},{m})"
   | .fstatat f n fl => s!"fstatat({fdS f},{hx n},{fl})"
   | .mkdirat d n m => s!"mkdirat({fdS d},{hx n},{m})"
